@@ -397,32 +397,50 @@ func (c *Ctx) presencePassThrough(fn *ssa.Function, depth int) (bool, string) {
 		if !ok || len(ret.Results) != 2 {
 			continue
 		}
-		c0, i0 := CallOf(ret.Results[0])
-		c1, i1 := CallOf(ret.Results[1])
-		if c0 != nil && c0 == c1 && i0 == 0 && i1 == 1 {
-			isSrc := false
-			for _, sc := range sources {
-				if ssa.Value(sc.Value()) == c0.Value() {
-					isSrc = true
+		// one (value, presence) pair per way of arriving at the return: a merged
+		// return (what an inlined look-up helper leaves) is read edge by edge
+		type pair struct {
+			v0, v1 ssa.Value
+			at     ssa.Instruction // last instruction before the pair is fixed
+		}
+		pairs := []pair{{ret.Results[0], ret.Results[1], ret}}
+		p0, isP0 := ret.Results[0].(*ssa.Phi)
+		p1, isP1 := ret.Results[1].(*ssa.Phi)
+		if isP0 && isP1 && p0.Block() == p1.Block() && len(p0.Edges) == len(p1.Edges) {
+			pairs = nil
+			for i := range p0.Edges {
+				pred := p0.Block().Preds[i]
+				pairs = append(pairs, pair{p0.Edges[i], p1.Edges[i], pred.Instrs[len(pred.Instrs)-1]})
+			}
+		}
+		for _, pr := range pairs {
+			c0, i0 := CallOf(pr.v0)
+			c1, i1 := CallOf(pr.v1)
+			if c0 != nil && c0 == c1 && i0 == 0 && i1 == 1 {
+				isSrc := false
+				for _, sc := range sources {
+					if ssa.Value(sc.Value()) == c0.Value() {
+						isSrc = true
+					}
+				}
+				if isSrc {
+					nPass++
+					continue
 				}
 			}
-			if isSrc {
-				nPass++
+			s, isS := ConstStr(pr.v0)
+			bv, isB := ConstBool(pr.v1)
+			if isS && isB && s == "" && !bv {
+				// absent: only where the state was not consulted
+				for _, sc := range sources {
+					if sc.(ssa.Instruction) == pr.at || Reaches(sc.(ssa.Instruction), pr.at) {
+						return false, "answers absent at " + c.P.InstrPos(ret) + " after the state was consulted"
+					}
+				}
 				continue
 			}
+			return false, "return at " + c.P.InstrPos(ret) + " is neither the state's own answer nor (\"\", false)"
 		}
-		s, isS := ConstStr(ret.Results[0])
-		bv, isB := ConstBool(ret.Results[1])
-		if isS && isB && s == "" && !bv {
-			// absent: only where the state was not consulted
-			for _, sc := range sources {
-				if Reaches(sc.(ssa.Instruction), ret) {
-					return false, "answers absent at " + c.P.InstrPos(ret) + " after the state was consulted"
-				}
-			}
-			continue
-		}
-		return false, "return at " + c.P.InstrPos(ret) + " is neither the state's own answer nor (\"\", false)"
 	}
 	if nPass == 0 {
 		return false, "the state's answer is never returned"
@@ -756,6 +774,25 @@ func (c *Ctx) anonymousIsNotFound(rule string) {
 				}
 				n++
 				ok := HasFact(FactsAtInstr(call.(ssa.Instruction)), func(f Fact) bool { return f.SaysNonEmpty(a) })
+				if !ok {
+					// the emptiness test sits in a helper that hands back ("", ErrUserNotFound):
+					// walk the paths and look at the value each one delivers
+					a := a
+					q := PathQuery{StartBlock: fn.Blocks[0], GoalP: func(in ssa.Instruction, pv PathView) bool {
+						if in != call.(ssa.Instruction) {
+							return false
+						}
+						if !pv.Precise() {
+							return true
+						}
+						rv := pv.Resolve(a)
+						if s, isC := ConstStr(rv); isC {
+							return s == ""
+						}
+						return !pv.PathFact(func(f Fact) bool { return f.SaysNonEmpty(rv) || f.SaysNonEmpty(a) })
+					}}
+					ok = q.Find() == nil
+				}
 				r.Check(ok, rule, name, "load only a non-empty pid", posf(c, call), "the user is loaded only under len(pid) != 0", "the user is loaded from storage although the session's pid may be empty: an anonymous request is answered by whatever Storage.Load(\"\") returns instead of ErrUserNotFound")
 			}
 		}
